@@ -1072,9 +1072,11 @@ wrapped_interval<Number>::UDiv(const wrapped_interval<Number> &x) const {
   if (is_top() || x.is_top()) {
     return wrapped_interval<Number>::top();
   } else {
+    // unsigned division is monotone only on intervals that do not
+    // cross the unsigned limit (south pole): ssplit in the APLAS'12 paper.
     std::vector<wrapped_interval<Number>> ssplits, x_ssplits;
-    signed_split(ssplits);
-    x.signed_split(x_ssplits);
+    unsigned_split(ssplits);
+    x.unsigned_split(x_ssplits);
     assert(!ssplits.empty());
     assert(!x_ssplits.empty());
     wrapped_interval<Number> res = wrapped_interval<Number>::bottom();
